@@ -58,6 +58,21 @@ def r09_1(chk):
 
 def r09_2(chk):
     repo = chk.repo
+    # the settings of an ephemeris that has already interpolated live in its interpolator: the setters must write the
+    # attribute the interpolator reads (wave o: `self.interp._order = value` -- a later `ephem.order = k` silently ignored)
+    ec = repo.cls(EPH, "Ephem")
+    ic = repo.cls("beyond/utils/interp.py", "Interp")
+    read_by_interp = {n.attr for f_ in ic.methods.values() for n in ast.walk(f_.node)
+                      if isinstance(n, ast.Attribute) and isinstance(n.value, ast.Name) and n.value.id == "self" and isinstance(n.ctx, ast.Load)}
+    for name in ("order", "method"):
+        st = ec.setters.get(name)
+        if st is None:
+            raise AnalysisError(f"Ephem.{name} setter not found")
+        targets = [unparse(t) for n in ast.walk(st.node) if isinstance(n, ast.Assign) for t in n.targets]
+        fwd = [t for t in targets if t.startswith("self.interp.") or t.startswith("self._interp.")]
+        ok = len(fwd) == 1 and fwd[0].split(".")[-1] == name and name in read_by_interp and f"self._{name}" in targets
+        chk.inst("R09.2", f"{st.ref}::forwarded", ok, f"writes `{fwd[0]}` (which the interpolator reads) once it exists, `self._{name}` before" if ok else
+                 f"writes {targets}: the interpolator reads `self.{name}`", loc(st, st.node))
     f = repo.func(EPH, "Ephem.interpolate")
     d = f.params()[1]
     rets = [s for s in body_without_doc(f.node) if isinstance(s, ast.Return)]
